@@ -217,6 +217,31 @@ func (p *prog) tryStmt(depth int) {
 	if hasFinally {
 		f = p.lbl()
 	}
+	if g.r.Intn(6) == 0 {
+		// handlers placed *before* the TRY (negative offsets)
+		over := p.lbl()
+		p.a.jmp(opcode.JMP, over)
+		if hasCatch {
+			p.a.label(c)
+			p.sink()
+			p.block(depth+1, 2)
+			p.a.jmp(opcode.ENDTRY, end)
+		}
+		if hasFinally {
+			p.a.label(f)
+			p.block(depth+1, 2)
+			p.a.op(opcode.ENDFINALLY)
+		}
+		p.a.label(over)
+		p.a.try(c, f)
+		p.block(depth+1, 3)
+		if g.r.Intn(2) == 0 {
+			p.throwSomething()
+		}
+		p.a.jmp(opcode.ENDTRY, end)
+		p.a.label(end)
+		return
+	}
 	if g.r.Intn(5) == 0 {
 		p.a.tryL(c, f)
 	} else {
